@@ -537,6 +537,7 @@ class BaseParser:
 
         for key, field in self.fields.items():
             value = unprovided
+            conflict = unprovided
             name = field.attname if as_attname else field.name
 
             if excluded_keys and name in excluded_keys:
@@ -554,7 +555,7 @@ class BaseParser:
                             value = data[alias]
                         else:
                             if data[alias] != value:
-                                context.handle_error(exc.AliasConflictError(item=name, value=data[alias]))
+                                conflict = data[alias]
                                 break
 
             if unprovided(value):
@@ -579,6 +580,10 @@ class BaseParser:
                 if not unprovided(default):
                     result[name] = default
                 continue
+
+            if not unprovided(conflict):
+                # a no-input field ignores its input (as in data_first_parse), so only now it is a conflict
+                context.handle_error(exc.AliasConflictError(item=name, value=conflict))
 
             parsed = field.parse_value(value, context=context)
             if unprovided(parsed):
